@@ -214,6 +214,9 @@ pub struct SimCfg {
     /// message out of a channel is stalled for a while before it acts on it (the buffer is
     /// empty, the item not yet applied)
     pub stall_after_recv_permille: u32,
+    /// > 0: every scheduling point costs this much virtual time (computation takes time: the clock
+    /// moves although tasks are runnable)
+    pub step_cost_ns: u64,
 }
 
 impl Default for SimCfg {
@@ -228,6 +231,7 @@ impl Default for SimCfg {
             stalls: Vec::new(),
             epoch_ns: 1_700_000_000 * 1_000_000_000,
             stall_after_recv_permille: 0,
+            step_cost_ns: 0,
         }
     }
 }
@@ -332,6 +336,9 @@ struct State {
     rr_left: u32,
     /// the deciding task asked to yield: other candidates come first and "pick 0" is another task
     yielding: bool,
+    /// consecutive scheduling decisions that kept the same task running although others could run
+    streak: u64,
+    streak_of: usize,
 }
 
 pub struct Sim {
@@ -421,6 +428,8 @@ pub fn run<F: FnOnce() + Send + 'static>(cfg: SimCfg, mut choices: Choices, reco
         pct_change_points: Vec::new(),
         rr_left: 0,
         yielding: false,
+        streak: 0,
+        streak_of: usize::MAX,
         cfg,
     };
     if let Mode::Pct { depth, est_steps } = st.cfg.mode.clone() {
@@ -715,6 +724,10 @@ pub fn sched_point_at(site: u64) {
     if let Some(e) = check_bounds(&st) {
         end_run(&sim, st, e);
     }
+    if st.cfg.step_cost_ns > 0 {
+        let t = st.now + st.cfg.step_cost_ns;
+        set_now(&mut st, t);
+    }
     // a planned stall in virtual time that has become due for this task
     if st.tasks[me].vstall_ns > 0 && st.tasks[me].vstall_skip > 0 {
         st.tasks[me].vstall_skip -= 1;
@@ -868,7 +881,13 @@ fn pick_next(sim: &Arc<Sim>, st: &mut MutexGuard<'_, State>, me: TaskId, _site: 
         let n = st.tasks.len();
         let mut cands: Vec<TaskId> = Vec::with_capacity(n);
         // order: current first, then the others by id (a yielding task goes last)
-        let yielding = st.yielding;
+        // time slice: a task that never blocks (a hot loop) does not keep the processor for ever on
+        // a real machine either; after a long uninterrupted streak it is treated as if it yielded
+        let forced_slice = st.streak_of == me && st.streak > 4000;
+        if forced_slice {
+            st.streak = 0;
+        }
+        let yielding = st.yielding || forced_slice;
         if !yielding && is_candidate(st, me) {
             cands.push(me);
         }
@@ -900,7 +919,22 @@ fn pick_next(sim: &Arc<Sim>, st: &mut MutexGuard<'_, State>, me: TaskId, _site: 
                 st.ctr.stall_skips += 1;
                 cands = unstalled;
             }
-            return Some(choose_among(st, me, &cands));
+            let was_yielding = st.yielding;
+            st.yielding = yielding;
+            let next = choose_among(st, me, &cands);
+            st.yielding = was_yielding;
+            if next == me && cands.len() > 1 {
+                if st.streak_of == me {
+                    st.streak += 1;
+                } else {
+                    st.streak_of = me;
+                    st.streak = 1;
+                }
+            } else if next != me {
+                st.streak_of = next;
+                st.streak = 0;
+            }
+            return Some(next);
         }
         // nothing runnable: a quiescing task goes first (before time moves)
         let worker_asleep = st.tasks.iter().any(|t| t.kind == Kind::Worker && matches!(t.state, TState::Sleeping(_)));
